@@ -112,6 +112,47 @@ def run(ctx, rep):
                  sample={'scope_types': st, 'creds': d, 'enforce_scope': es, 'outcomes': outs} if mismatch and by_name else None)
     scenario.run_all(rep, scs, 'scope', check)
     rep.extra['exhaustive'] = True
+    _from_files(ctx, rep)
+
+
+def _from_files(ctx, rep):
+    """The same gate when the override really comes from the policy file or a policy directory (a file rule carries no
+    scope types: they always come from the registered default)."""
+    from .. import fsharness
+    n = 0
+    for st in (['system'], ['project'], ['domain', 'project'], ['system', 'domain']):
+        for where in ('none', 'main', 'dir', 'both'):
+            for override in ('@', 'role:r0'):
+                regs = [{'name': 'p', 'check_str': 'role:r0', 'scope_types': st}, {'name': 'q', 'check_str': '@', 'scope_types': None}]
+                w = fsharness.World(regs=regs)
+                try:
+                    main = {'unrelated': '!'}
+                    if where in ('main', 'both'):
+                        main['p'] = override
+                    w.write((None, None), main, 2, record=False)
+                    if where in ('dir', 'both'):
+                        w.write((0, 'o.yaml'), {'p': override}, 3, record=False)
+                    e = w.new_enforcer()
+                    for label, d, kw in creds_variants():
+                        ts = expected_scope(d)
+                        for dr in (False, True):
+                            got = impl.outcome(lambda: e.enforce('p', {}, dict(d), do_raise=dr))
+                            if ts not in st:
+                                want = 'raise:InvalidScope' if dr else 'deny'
+                            else:
+                                want = 'allow'        # the credentials hold r0; '@' allows anyway
+                            if got != want:
+                                rep.fail('c08file:%r|%s|%s|%s|dr=%s' % (st, where, override, label, dr),
+                                         'registered scope types %r, policy overridden (%s) with %r, credentials %r (token scope %s), '
+                                         'do_raise=%s: got %s, expected %s' % (st, where, override, d, ts, dr, got, want),
+                                         {'scope_types': st, 'override_in': where, 'override': override, 'creds': d})
+                            n += 1
+                    rep.stat('file_override:' + where)
+                    rep.case(key='file%r%s%s' % (st, where, override), nontrivial=True)
+                finally:
+                    w.close()
+    rep.rules.append('%d enforce calls on enforcers that load a real policy file / policy.d file overriding (or not) a registered '
+                     'default with scope types' % n)
 
 
 def _impl_with_creds(sc):
